@@ -3,7 +3,9 @@
 proof:          lean/PdshVerif/Props/C18.lean about the model Opt/Settings.lean (opt_default, opt_env, getopt,
                 opt_args_early, opt_args, opt_verify, string_to_int, atoi, copy_username) against Opt/Spec.lean
 correspondence: the scratch-built pdsh / pdcp / rpdcp (`-q` dump of the effective settings, exit status, stderr;
-                `-L` for the module selection; real `-R exec` runs with a 5 s limit) vs `pdshmodel opt model`
+                `-L` for the module selection; real `-R exec` runs with a 5 s limit; the settings WHERE THEY ARE USED: user,
+                fanout (also under low RLIMIT_NOFILE), command time-out through exec, connect time-out through the real rsh
+                module against a scripted peer, remote pdcp path through pcptest.so) vs `pdshmodel opt model`
 oracle:         Opt/Spec.lean `judge` (`pdshmodel opt spec`) on the structured configuration and the real observation
 """
 import concurrent.futures
@@ -787,6 +789,10 @@ def run(ctx):
                    "{absent, command line, variable, both, twice (both orders), twice + variable, valid over hostile and back, too small "
                    "on either side, too small next to every flag / every other valued option}, every flag once and twice; user names "
                    "at LOGIN_NAME_MAX-2..+2 (-l and user@), structurally bad command lines one kind each; "
+                   "(U) the settings where they take effect, every source and option position: the user every target is contacted "
+                   "with, the number of commands running at once (also with RLIMIT_NOFILE 30..40), a command cut short or not, a host "
+                   "whose connect handshake is answered late / never (real rsh module, scripted peer), the program run on the remote "
+                   "side of a copy (pcptest.so, wrappers recording their name); "
                    "(W) remote command words (option-like, empty, blank-containing, `--`) vs the listing's Command / Infile(s) / Outfile; "
                    "refusals are classified by the kind of bad INPUT (evidence refusal_kinds), never by message wording; non-trivial = at least one "
                    "setting given by option or variable; distinct = distinct (personality, environment, argv)"}
@@ -1369,7 +1375,8 @@ def run(ctx):
                       "hand-written model Opt/Settings.lean tied to opt.c/main.c by differential execution of the built binaries",
                       "Gen/Dsh.lean, Gen/Opt.lean, Gen/Optable.lean regenerated from /repo (defaults, rcmd ranking; option strings and the "
                       "option / variable table by a behavioural probe: harness/consts/optable.c)",
-                      "checks/c18.py (generator, dump parser), setpriv, gcc/make"],
+                      "checks/c18.py (generator, dump parser), vlib/optuse.py (scripted rsh peer, wrapper programs), "
+                      "tests/test-modules/pcptest.so, setpriv, prlimit, gcc/make"],
         checker_cmd="lake build PdshVerif.Props.C18 && #print axioms on every theorem of Props/C18.lean")
 
 
